@@ -599,6 +599,29 @@ def run_paths(case, workdir: Path):
                     for r in json.loads(f2.read_text())["data"].get("recordings") or []:
                         if r["uuid"] in table:
                             table[r["uuid"]]["stored2"] = comps(r["path"])
+        # the same load once more with the recordings really present under A, the process standing INSIDE A and the files
+        # absent under B: relocation is a matter of path algebra, whatever exists on disk or wherever the process stands
+        out["loadedfs"], out["Bfs"] = "skipped", [""]
+        for t in table.values():
+            t["atBfs"] = [""]
+        if saved == "" and mode != "none" and case.get("place", "inside") == "inside":
+            try:
+                for r in recs:
+                    rp = Path(r.path)
+                    rp.parent.mkdir(parents=True, exist_ok=True)
+                    rp.write_bytes(b"")
+                Aabs = Path(os.path.abspath(A))
+                Bfs = tmp / "moved fs" / "audio B"
+                os.chdir(Aabs)
+                bfs = {"str": str(Bfs), "path": Bfs, "fspath": _FsPath(Bfs)}[mode]
+                out["Bfs"] = comps(Bfs)
+                out["loadedfs"], objF = outcome_of(lambda: io.load(f, audio_dir=bfs, **lkw))
+                if out["loadedfs"] == "":
+                    for r in recordings_in(objF):
+                        if str(r.uuid) in table:
+                            table[str(r.uuid)]["atBfs"] = comps(r.path)
+            finally:
+                os.chdir(tmp)
         out["recs"] = [table[k] for k in sorted(table, key=lambda u: table[u]["id"])]
         return out
     finally:
